@@ -14,6 +14,7 @@ import (
 	"github.com/launchdarkly/go-sdk-common/v3/ldattr"
 	"github.com/launchdarkly/go-sdk-common/v3/ldcontext"
 	"github.com/launchdarkly/go-sdk-common/v3/ldtime"
+	"github.com/launchdarkly/go-sdk-common/v3/ldvalue"
 	"github.com/launchdarkly/go-server-sdk-evaluation/v3/ldbuilders"
 	"github.com/launchdarkly/go-server-sdk-evaluation/v3/ldmodel"
 )
@@ -462,7 +463,11 @@ func (t *relTotals) roundTripFlag(stream string, doc JV, ec *EvalCase) {
 					t.known = append(t.known, k.id)
 					fmt.Printf("KNOWN-FINDING: property=C15 %s: a negative debugEventsUntilDate (e.g. %v) does not reach a round-trip fixed point after one step\n", k.id, dv.N)
 				}
-				return
+				// the finding is about that one metadata field; everything else still has to hold
+				if err3 == nil && onlyDebugDiffers(&v2, &v3) {
+					t.flagEvalEquivalence(stream, doc, ec, &v, &v2)
+					return
+				}
 			}
 		}
 		t.violation(stream, "decode(encode(v)) is not a fixed point after one step", map[string]any{"doc": docText(doc), "encoded1": string(e1), "encoded2": string(e2),
@@ -470,16 +475,74 @@ func (t *relTotals) roundTripFlag(stream string, doc JV, ec *EvalCase) {
 		return
 	}
 	t.sample(map[string]any{"doc": docText(doc), "canonical": string(e1)})
-	// evaluation equivalence of v and RT(v)
-	if ec != nil {
-		store := buildStore(&ec.Store)
-		ctx := ec.Ctx.build()
-		s1 := newSetup(&ec.Opts, store, ec.BS)
-		keys := logKeysFor(ec)
-		o1 := s1.evalOnce(&v, ctx, ec.Opts.Rec, keys)
-		o2 := s1.evalOnce(&v2, ctx, ec.Opts.Rec, keys)
-		if canon(full(&o1)) != canon(full(&o2)) {
-			t.violation(stream, "the round-tripped flag evaluates differently from the original", map[string]any{"doc": docText(doc), "case": ec, "obs1": o1, "obs2": o2})
+	t.flagEvalEquivalence(stream, doc, ec, &v, &v2)
+}
+
+// flagEvalEquivalence: v and RT(v) evaluate identically — for the case's own context and a handful
+// of others, as the document stands and with the early exits removed (flag switched on, no
+// prerequisites, no individual targets), so that rules, rollouts and the fallthrough are reached.
+func (t *relTotals) flagEvalEquivalence(stream string, doc JV, ec *EvalCase, v, v2 *ldmodel.FeatureFlag) {
+	if ec == nil {
+		return
+	}
+	store := buildStore(&ec.Store)
+	s1 := newSetup(&ec.Opts, store, ec.BS)
+	keys := logKeysFor(ec)
+	r := newRng(hashStr(docText(doc)))
+	g := &gen{r: r, p: profiles["wellformed"]}
+	ctxs := []ldcontext.Context{ec.Ctx.build()}
+	for i := 0; i < 4; i++ {
+		w := g.context()
+		ctxs = append(ctxs, w.build())
+	}
+	open := func(f *ldmodel.FeatureFlag) *ldmodel.FeatureFlag {
+		o := *f
+		o.On, o.Prerequisites, o.Targets, o.ContextTargets = true, nil, nil, nil
+		return &o
+	}
+	for _, pair := range [][2]*ldmodel.FeatureFlag{{v, v2}, {open(v), open(v2)}} {
+		for _, ctx := range ctxs {
+			o1 := s1.evalOnce(pair[0], ctx, ec.Opts.Rec, keys)
+			o2 := s1.evalOnce(pair[1], ctx, ec.Opts.Rec, keys)
+			t.evaluations++
+			if canon(full(&o1)) != canon(full(&o2)) {
+				t.violation(stream, "the round-tripped flag evaluates differently from the original", map[string]any{"doc": docText(doc), "case": ec,
+					"context": dumpCtx(ctx, ""), "obs1": o1, "obs2": o2})
+				return
+			}
+		}
+	}
+}
+
+// segmentEvalEquivalence: a probe flag whose only rule is a segmentMatch on the segment gives the
+// same observation for v and RT(v), over a handful of contexts (keys drawn from the segment's own
+// lists among them).
+func (t *relTotals) segmentEvalEquivalence(stream string, doc JV, v, v2 *ldmodel.Segment) {
+	r := newRng(hashStr(docText(doc)))
+	g := &gen{r: r, p: profiles["segments"]}
+	probe := ldmodel.FeatureFlag{Key: "probe", On: true, Variations: []ldvalue.Value{ldvalue.String("out"), ldvalue.String("in")},
+		Fallthrough: ldmodel.VariationOrRollout{Variation: ldvalue.NewOptionalInt(0)},
+		Rules: []ldmodel.FlagRule{{ID: "in-segment", VariationOrRollout: ldmodel.VariationOrRollout{Variation: ldvalue.NewOptionalInt(1)},
+			Clauses: []ldmodel.Clause{{Op: ldmodel.OperatorSegmentMatch, Values: []ldvalue.Value{ldvalue.String(v.Key)}}}}}}
+	keys := append(append([]string{}, v.Included...), v.Excluded...)
+	for i := 0; i < 6; i++ {
+		w := g.context()
+		if len(keys) > 0 && i%2 == 0 && w.T == "single" {
+			w.C.Key = pick(r, keys)
+			w.C.Legacy = w.C.Key == ""
+		}
+		ctx := w.build()
+		var obs [2]WObs
+		for j, seg := range []*ldmodel.Segment{v, v2} {
+			store := &realStore{flags: map[string]*ldmodel.FeatureFlag{}, segments: map[string]*ldmodel.Segment{v.Key: seg}}
+			s := newSetup(&WOpts{Log: true, Rec: true}, store, nil)
+			obs[j] = s.evalOnce(&probe, ctx, true, []string{"probe"})
+		}
+		t.evaluations++
+		if canon(full(&obs[0])) != canon(full(&obs[1])) {
+			t.violation(stream, "the round-tripped segment evaluates differently from the original", map[string]any{"doc": docText(doc),
+				"context": dumpCtx(ctx, ""), "obs1": obs[0], "obs2": obs[1]})
+			return
 		}
 	}
 }
@@ -515,7 +578,9 @@ func (t *relTotals) roundTripSegment(stream string, doc JV) {
 	if !sameJSONBytes(e1, e2) || err3 != nil || segDumpJSON(&v2) != segDumpJSON(&v3) {
 		t.violation(stream, "decode(encode(v)) is not a fixed point after one step (segment)", map[string]any{"doc": docText(doc), "encoded1": string(e1), "encoded2": string(e2),
 			"v": json.RawMessage(segDumpJSON(&v2)), "rt": json.RawMessage(segDumpJSON(&v3))})
+		return
 	}
+	t.segmentEvalEquivalence(stream, doc, &v, &v2)
 }
 
 func recovering(t *relTotals, stream string, payload func() map[string]any, f func()) {
@@ -636,6 +701,55 @@ func checkC16(seed uint64, replayDir, corpusDir string) (map[string]any, int) {
 		wf.Form = pick(r, []string{"plain", "pre", "json"})
 		ws := g.segment("s", segKeyPool)
 		ws.Form = pick(r, []string{"plain", "pre", "json"})
+		// any syntactically valid document (not only the encoder's own output): every decode path
+		// agrees on whether it is accepted and on the value — unknown properties, any member order,
+		// nulls, wrong types, duplicate members
+		for _, kd := range []struct {
+			kind string
+			doc  JV
+		}{{"flag", flagDoc(&wf)}, {"segment", segmentDoc(&ws)}} {
+			kd := kd
+			variant := kd.doc
+			switch r.intn(4) {
+			case 0:
+				variant = insertUnknown(r, kd.kind, variant, g)
+			case 1:
+				variant = permute(r, kd.kind, variant)
+			case 2:
+				variant = corrupt(r, kd.kind, variant, g)
+			}
+			data := variant.plainJSON()
+			recovering(t, "paths-any-document", func() map[string]any { return map[string]any{"doc": string(data)} }, func() {
+				t.evaluations++
+				t.counts["decode-paths/any-document"]++
+				var dumps []string
+				var errs []error
+				var names []string
+				if kd.kind == "flag" {
+					vals, es, ns := decodeFlagPaths(data)
+					for k := range vals {
+						dumps = append(dumps, flagDumpJSON(&vals[k]))
+					}
+					errs, names = es, ns
+				} else {
+					vals, es, ns := decodeSegmentPaths(data)
+					for k := range vals {
+						dumps = append(dumps, segDumpJSON(&vals[k]))
+					}
+					errs, names = es, ns
+				}
+				for k := range dumps {
+					if (errs[k] == nil) != (errs[0] == nil) {
+						t.violation("paths-any-document", fmt.Sprintf("decode paths disagree on whether the document is accepted: %s (%v) vs %s (%v)", names[0], errs[0], names[k], errs[k]), map[string]any{"doc": string(data)})
+						return
+					}
+					if errs[k] == nil && dumps[k] != dumps[0] {
+						t.violation("paths-any-document", "decode paths disagree on the value: "+names[0]+" vs "+names[k], map[string]any{"doc": string(data)})
+						return
+					}
+				}
+			})
+		}
 		recovering(t, "paths", func() map[string]any { return map[string]any{"flag": wf} }, func() {
 			f := wf.build()
 			outs, errs, names := encodeFlagPaths(*f)
